@@ -366,9 +366,8 @@ func (s *State) evalInternal(node any) object.Object { //nolint:funlen,gocognit,
 
 func (s *State) evalPipe(left object.Object, right ast.Node) object.Object {
 	s.PipeVal = []byte(left.(object.String).Value)
-	res := s.evalInternal(right)
-	s.PipeVal = nil
-	return res
+	defer func() { s.PipeVal = nil }() // also when the right side panics (depth, memory): not for later inputs.
+	return s.evalInternal(right)
 }
 
 func (s *State) evalIndexExpression(left object.Object, node *ast.IndexExpression) object.Object {
